@@ -8,11 +8,12 @@ EXTENDS Naturals, FiniteSets, Sequences, TLC
 Forms    == {"text", "bytes"}
 Cookies  == {"none", "utf-8", "latin-1", "cp1252", "iso-8859-15", "ascii"}
 Newlines == {"LF", "CRLF", "CR"}
-Shebangs == {"none", "plain", "with-args", "non-ascii", "second-line-only", "hash-only", "space-before"}
+Shebangs == {"none", "plain", "with-args", "non-ascii", "second-line-only", "hash-only", "space-before",
+             "with-formfeed", "with-x85", "with-linesep"}     \* characters str.splitlines() treats as line ends but the tokenizer does not
 Configs  == [form : Forms, bom : BOOLEAN, cookie : Cookies, newline : Newlines, shebang : Shebangs, preserve : BOOLEAN]
 
 \* a real shebang is a first line that starts with the two characters #!
-HasShebang(c) == c.shebang \in {"plain", "with-args", "non-ascii"}
+HasShebang(c) == c.shebang \in {"plain", "with-args", "non-ascii", "with-formfeed", "with-x85", "with-linesep"}
 
 \* with a BOM the source does not start with #! (bytes) / starts with U+FEFF (text): left unconstrained
 Constrained(c) == ~c.bom
